@@ -18,7 +18,38 @@ def atomic_rows():
     return [r for r in oracle.ROWS if r['sem'].get('cls') in ('atomic.load', 'atomic.store', 'atomic.rmw', 'atomic.cmpxchg')]
 
 
+def _shared_split(summ):
+    """paths of a function that first branches on memory->shared: (paths taken for a shared memory, paths for an unshared one), or None"""
+    sh, un = [], []
+    for p in summ['paths']:
+        v = None
+        for c, t, _ in p.decisions:
+            r_ = pe.relation(c, t)
+            if r_ is not None and r_[2] == 0 and pe.is_sym(pe.strip_casts(r_[1])) and pe.strip_casts(r_[1]).op == 'unk' and \
+                    str(pe.strip_casts(r_[1]).args[0]) == 'shared' and r_[0] in ('==', '!='):
+                v = r_[0] == '!='
+                break
+        if v is None:
+            return None
+        (sh if v else un).append(p)
+    return (sh, un) if sh and un else None
+
+
 def rt_check(chk, rule, row, summ, site, htu):
+    split = _shared_split(summ) if row['sem']['cls'] in ('atomic.load', 'atomic.store') else None
+    if split is not None:
+        # a memory that is not shared is reachable from one thread only: there a plain access of the same width is an atomic access.
+        # The shared paths get the atomic rule, the unshared paths the plain load/store rule of C05
+        sh, un = split
+        mr.check_atomic_le(chk, rule, row, dict(summ, paths=sh), site, htu)
+        plain = dict(row, sem=dict(row['sem'], cls='load' if row['sem']['cls'] == 'atomic.load' else 'store', ext='z'))
+        plain['name'] = row['name'] + '[unshared]'
+        s2 = dict(summ, paths=un)
+        if plain['sem']['cls'] == 'load':
+            mr.check_plain_load(chk, rule, plain, s2, site, 'le')
+        else:
+            mr.check_plain_store(chk, rule, plain, s2, site, 'le')
+        return
     mr.check_atomic_le(chk, rule, row, summ, site, htu)
     if row['sem']['cls'] == 'atomic.cmpxchg':
         # R16.3: the expected object handed to the builtin starts as the wrapped `expected` operand
